@@ -9,33 +9,51 @@
 (***************************************************************************)
 EXTENDS JudgeC01, JudgeHist, Json, IOUtils, TLCExt
 
-Cases == JsonDeserialize(IOEnv.CASES)
+(* The case file is deserialised ONCE (in Init, into TLC register 7); TLC would otherwise
+   re-read the JSON file at every reference of a zero-arity definition built on IOEnv. *)
+CasesFromFile == JsonDeserialize(IOEnv.CASES)
+Cases == TLCGet(7)
 
-VARIABLES k, l
-vars == <<k, l>>
+VARIABLES k, l, e
+vars == <<k, l, e>>
 
 NSteps(c) == IF "steps" \in DOMAIN c THEN Len(c.steps) ELSE 1
 TotalSteps == FoldLeft(LAMBDA a, c : a + NSteps(c), 0, Cases)
 
 HistFails(c, s) ==
   CASE c.prop = "C02" -> C02StepFails(c, s)
+    [] c.prop = "C19" -> C19StepFails(c, s)
+    [] c.prop = "C10" -> C10StepFails(c, s)
+    [] c.prop = "C14" -> C14StepFails(c, s)
 
 Fails(c, s) ==
   CASE c.kind = "eval"    -> C01EvalFails(c)
     [] c.kind = "optable" -> C01OpTableFails(c)
     [] c.kind = "ttcode"  -> C01TTCodeFails(c)
     [] c.kind = "hist"    -> HistFails(c, s)
+    [] c.kind = "same"    -> FailSet(<< <<c.what, c.a = c.b /\ c.exc = "">> >>)
 
 Drift(c, s) == IF c.kind = "hist" THEN HistDrift(c, s) ELSE {}
 
-Init == k = 1 /\ l = 1
-Next == /\ k <= Len(Cases)
+(* The cases are cut into NCH contiguous chains; each chain is an independent linear
+   behaviour (its own initial state), so that one JVM with several workers judges them in
+   parallel.  A state is (k, l, e): case index, step index, last case of the chain. *)
+NCH == IF "NCHAINS" \in DOMAIN IOEnv THEN atoi(IOEnv.NCHAINS) ELSE 1
+ChainStart(c) == ((c - 1) * Len(Cases)) \div NCH + 1
+ChainEnd(c) == (c * Len(Cases)) \div NCH
+
+Init == /\ TLCSet(7, CasesFromFile)
+        /\ \E c \in 1 .. NCH : k = ChainStart(c) /\ e = ChainEnd(c)
+        /\ l = 1
+Next == /\ k <= e
         /\ LET f == Fails(Cases[k], l)
                d == Drift(Cases[k], l)
            IN  /\ IF f = {} THEN TRUE ELSE PrintT(<<"VERDICT", Cases[k].id, l, f>>)
                /\ IF d = {} THEN TRUE ELSE PrintT(<<"DRIFT", Cases[k].id, l, d>>)
         /\ IF l < NSteps(Cases[k]) THEN l' = l + 1 /\ k' = k
                                     ELSE l' = 1 /\ k' = k + 1
+        /\ e' = e
 Spec == Init /\ [][Next]_vars
-Consumed == TLCGet("stats").diameter - 1 = TotalSteps
+(* every step of every case was judged: one state per step plus one terminal state per chain *)
+Consumed == TLCGet("distinct") = TotalSteps + NCH
 =============================================================================
